@@ -1140,6 +1140,87 @@ def check_negative(item, ctx):
                   lambda: f"{cat} name {bad!r} (from {valid!r}) form {form}: returned {type(res).__name__} instead of raising")
 
 
+# ----------------------------------------------------------------------------- facet: regeneration (the catalogue cannot be edited through what it returns)
+_RAW_FORMS = {
+    "state": ["pure_state_vector", "density_mat", "density_matrix_vector"],
+    "povm": ["pure_state_vectors", "matrices", "vectors"],
+    "gate": ["unitary_mat", "gate_mat"],
+    "lindbladian": ["hamiltonian_vec", "hamiltonian_mat", "effective_lindbladian_mat"],
+    "mprocess": ["set_pure_state_vectors", "set_kraus_matrices", "hss"],
+}
+
+
+def regeneration_items(tier):
+    items = []
+    for cat, s, n, ids in _negative_bases():
+        for form in _RAW_FORMS.get(cat, []):
+            items.append({"catalogue": cat, "sys": s, "name": n, "ids": ids, "form": form})
+    return items
+
+
+def _arrays_of(x):
+    if isinstance(x, np.ndarray):
+        return [x]
+    if isinstance(x, (list, tuple)):
+        return [a for e in x for a in _arrays_of(e)]
+    return []
+
+
+def check_regeneration(item, ctx):
+    """a caller that edits the arrays / lists a generator returned must not change what the catalogue generates next:
+    for the same name, and for the product names built from it."""
+    cat, sys_, name, ids, form = item["catalogue"], item["sys"], item["name"], item["ids"], item["form"]
+    ctx.label(cat, form)
+    first, err = try_call(lambda: _dispatch_catalogue(cat, name, form, sys_, ids))
+    if err is not None:
+        ctx.label("form_not_available")  # e.g. pure-state vectors of a POVM that is not rank one: decided by the main facets
+        return
+    snap = [np.array(a, copy=True) for a in _arrays_of(first)]
+    n_edit = 0
+    for a in _arrays_of(first):
+        if a.flags.writeable and a.size:
+            a *= 0.5
+            a.flat[0] += 7.0
+            n_edit += 1
+    if isinstance(first, list) and len(first) > 1:
+        first.pop()
+        n_edit += 1
+    ctx.nontrivial(n_edit > 0)
+    again, err = try_call(lambda: _dispatch_catalogue(cat, name, form, sys_, ids))
+    if not ctx.check(err is None, "regeneration:still_generates", lambda: f"{cat} {name!r} {form}: {type(err).__name__}: {err}"):
+        return
+    got = _arrays_of(again)
+    ok = len(got) == len(snap) and all(g.shape == w.shape and np.array_equal(g, w) for g, w in zip(got, snap))
+    ctx.check(ok, "regeneration:unchanged_after_caller_edit",
+              lambda: f"{cat} {name!r} form {form}: the second generation differs from the first after the caller edited the first result")
+    # a product name containing this single-system name
+    if cat in ("state", "povm") and "_" not in name and sys_ in ("1q", "qutrit"):
+        other = {"state": {"1q": "z0", "qutrit": "01z0"}, "povm": {"1q": "z", "qutrit": "z3"}}[cat][sys_]
+        prod_sys = "2q" if sys_ == "1q" else "2qutrit"
+        pname = other + "_" + name
+        twin_first, e1 = try_call(lambda: _dispatch_catalogue(cat, name, form, sys_, ids))
+        if e1 is None:
+            for a in _arrays_of(twin_first):
+                if a.flags.writeable and a.size:
+                    a *= 0.25
+            prod, e2 = try_call(lambda: _dispatch_catalogue(cat, pname, form, prod_sys, None))
+            if e2 is None:
+                o_first, _ = try_call(lambda: _dispatch_catalogue(cat, other, form, sys_, None))
+                if o_first is not None and cat == "state":
+                    want = [np.kron(_arrays_of(o_first)[0].reshape(-1) if form != "density_mat" else _arrays_of(o_first)[0],
+                                    snap[0].reshape(-1) if form != "density_mat" else snap[0])] if form != "density_matrix_vector" else None
+                    if want is not None:
+                        g = _arrays_of(prod)[0]
+                        ctx.close(np.asarray(g).reshape(-1), np.asarray(want[0]).reshape(-1), 1e-12, "regeneration:product_unchanged_after_caller_edit",
+                                  f"{pname} form {form}")
+                elif o_first is not None and cat == "povm" and form in ("pure_state_vectors", "matrices"):
+                    oa = _arrays_of(o_first)
+                    want = [np.kron(x, y) for x in oa for y in snap]
+                    g = _arrays_of(prod)
+                    ok = len(g) == len(want) and all(np.allclose(a, b, rtol=0, atol=1e-12) for a, b in zip(g, want))
+                    ctx.check(ok, "regeneration:product_unchanged_after_caller_edit", f"{pname} form {form}")
+
+
 # ----------------------------------------------------------------------------- facet: recombined (invalid names made of valid items)
 def _recombined_vocab(cat):
     names = R.expected_state_names() if cat == "state" else R.expected_povm_names()
@@ -1281,6 +1362,12 @@ FACETS = {
         "budget": {"quick": {"examples": 0, "shards": 1}, "thorough": {"examples": 0, "shards": 1}},
         "nontrivial": "every (mode, name, listed object_name) triple sent through qoperation_typical.generate_qoperation_object",
         "min_nontrivial": 25,
+    },
+    "regeneration": {
+        "kind": "enumeration", "items": regeneration_items, "check": check_regeneration,
+        "budget": {"quick": {"examples": 0, "shards": 4}, "thorough": {"examples": 0, "shards": 8}},
+        "nontrivial": "the first result held at least one writable array or a list that the caller edited before generating the same name again",
+        "min_nontrivial": 100,
     },
     "recombined": {
         "kind": "enumeration", "items": recombined_items, "check": check_recombined,
